@@ -289,7 +289,7 @@ _patch('C13', 'level_note', 'and A-classid (no class address reuse while cached)
 
 # ---- natargs / iterops (C16 / C11 / C06 / C01) ----------------------------------------------------------------------------------------------
 _patch('C16', 'level_note', 'Not decided: the ~150 native bodies themselves (that each assumes no more than its declared signature),',
-       'Native bodies: for 128 of the 131 natives of laythe_lib a GENERATED obligation says that the argument indexings and unwraps the body performs unconditionally are covered by what the gate admits for its own declared signature (natargs unit; D28 print() and D29 isA? found and fixed, D27 — List.collect / Tuple.collect / iter.zip / iter.chain cast Object-kind arguments to enumerators unchecked — is a listed finding). Not decided: unwraps reached only conditionally (dropped from the slice: they may be guarded), results of callbacks (print(A()) with a non-string str()), Sin / Cos / Rand (declared through another macro),')
+       'Native bodies: for 128 of the 131 natives of laythe_lib a GENERATED obligation says that the argument indexings and unwraps the body performs unconditionally are covered by what the gate admits for its own declared signature (natargs unit; D27 — List.collect / Tuple.collect / iter.zip / iter.chain cast Object-kind arguments to enumerators unchecked —, D28 print() and D29 isA? found and fixed). Not decided: unwraps reached only conditionally (dropped from the slice: they may be guarded), results of callbacks (print(A()) with a non-string str()), Sin / Cos / Rand (declared through another macro),')
 _patch('C11', 'level_text', 'so a native body only runs on arguments of the declared kinds.', 'so a native body only runs on arguments of the declared kinds; and the unconditional argument unwraps of 128 native bodies are covered by their own declared signatures (natargs unit, generated).')
 
 # ---- narrowc / parserd limits / importpath / iterops ------------------------------------------------------------------------------------------
@@ -320,3 +320,4 @@ _patch('C01', 'level_text', 'Unbounded proof', 'Calls (calls unit, the real Vm::
 _patch('C01', 'level_note', 'scope-exit drops, call protocol.', 'scope-exit drops, the frame layout behind push_frame / pop_frame.')
 _patch('C01', 'level_text', 'Unbounded proof', 'Block scopes (scopec unit, the real Compiler::scope / begin_scope / end_scope / drop_locals / drop_local_count / push_local / declare_local_variable / define_local_variable / declare_variable / define_variable / let_): a let is declare, initialiser (nil without one), define, in that order, a stack local only below module level; a declared local is exactly one new entry at the current depth (its slot is the old local count; a captured one gets its box), and leaving a block emits one Drop for every local the block declared, no more and no fewer, removes exactly those entries and pops the block table, so a block leaves the locals of its surroundings as they were. Unbounded proof')
 _patch('C01', 'level_note', 'scope-exit drops, the frame layout', 'module-level declarations (declare_module_variable / define_module_variable are stubs), the frame layout')
+_patch('C16', 'level_note', 'Native bodies: for 128 of the 131 natives', 'The kind test of the gate itself (sigkind unit: the real ParameterKind::is_valid admits exactly the values of the declared kind, Enumerator included). Native bodies: for 128 of the 131 natives')
